@@ -11,6 +11,12 @@ line protocol for C10 (core-only):
         prune of the entry node has destroyed that information the driver looks for SOME order of the
         rescued nodes under which the model produces the implementation's dump (x-fields); the model is
         nondeterministic exactly there, so membership in its outcome set is what is checked.
+  doc vp=<k.k.k> op=<ins|upd|del> id=<n> old=<doc|~> inc=<doc|~> was=<0|1> wasvec=<tag|-> raw=<0|1>
+      → "new=<doc|~> inV=<0|1> vec=<tag|-|?>": `pstep` (the shard's transform function + `getOperation` /
+        `preProcessVamana` for the vector index on schema path vp) on the stored document `old` and the
+        incoming document `inc`: the document stored afterwards, whether the index holds a vector for the
+        node after consuming the emitted change (it did iff was=1), and which (plain store only: raw=1).
+        doc = "{}" | path:leaf,… with leaf N | D | V<tag> | X | O, entries sorted by path.
 -/
 import SemaModel.Base.DriverUtil
 import SemaModel.C10.Model
@@ -67,6 +73,57 @@ def perms : List Nat → List (List Nat)
   | [] => [[]]
   | x :: xs => (perms xs).flatMap fun p => (List.range (p.length + 1)).map fun i => p.take i ++ x :: p.drop i
 
+def parseLeaf (s : String) : Leaf :=
+  if s == "N" then .nil else if s == "D" then .del else if s == "O" then .obj
+  else if s.startsWith "V" then .vec ((s.drop 1).toString.toNat?.getD 0) else .other
+
+def parseDoc (s : String) : Option Doc :=
+  if s == "~" then none else if s == "{}" then some [] else
+  some ((s.splitOn ",").filterMap fun e =>
+    match e.splitOn ":" with
+    | [p, l] => some ((p.splitOn ".").filterMap String.toNat?, parseLeaf l)
+    | _ => none)
+
+def pathLt : List Nat → List Nat → Bool
+  | [], [] => false
+  | [], _ :: _ => true
+  | _ :: _, [] => false
+  | a :: as, b :: bs => if a < b then true else if b < a then false else pathLt as bs
+
+def showLeaf : Leaf → String
+  | .nil => "N" | .del => "D" | .obj => "O" | .other => "X" | .vec t => s!"V{t}"
+
+def showDoc : Option Doc → String
+  | none => "~"
+  | some [] => "{}"
+  | some d =>
+    let es := (d.toArray.qsort (fun a b => pathLt a.1 b.1)).toList
+    ",".intercalate (es.map fun e => ".".intercalate (e.1.map toString) ++ ":" ++ showLeaf e.2)
+
+def docStep (rest : List String) : String :=
+  let vp := ((field rest "vp").splitOn ".").filterMap String.toNat?
+  let id := (field rest "id").toNat?.getD 0
+  let old := parseDoc (field rest "old")
+  let inc := parseDoc (field rest "inc")
+  let S : PStore := match old with | some d => [(id, d)] | none => []
+  let op : Option POp :=
+    match field rest "op", inc with
+    | "ins", some d => some (.ins id d)
+    | "upd", some d => some (.upd id d)
+    | "del", _ => some (.del id)
+    | _, _ => none
+  match op with
+  | none => "bad-op"
+  | some op =>
+    match pstep vp S op with
+    | .error _ => "err"
+    | .ok (S', c) =>
+      let T : Id → Option Nat := fun j =>
+        if j == id && field rest "was" == "1" then some ((field rest "wasvec").toNat?.getD 0) else none
+      let v := vecsAfter T c.toList id
+      let vec := if field rest "raw" == "1" then (match v with | some t => toString t | none => "-") else "?"
+      s!"new={showDoc (docOf S' id)} inV={if v.isSome then 1 else 0} vec={vec}"
+
 def step (line : String) : String :=
   let toks := line.trimAscii.toString.splitOn " "
   match toks with
@@ -101,6 +158,7 @@ def step (line : String) : String :=
             | none => first
           else first
     | _ => "bad-op"
+  | "doc" :: rest => docStep rest
   | _ => "skip (not a model line)"
 
 end Sema.C10
